@@ -58,3 +58,12 @@ func TestVerifWitness_C08_parseTags_col16(t *testing.T) {
 	}
 	fmt.Println("WITNESS-HOLDS")
 }
+
+// C02 bounded.number_notation: the exponent is not part of the digit groups.
+func TestVerifWitness_C02_exponent_is_not_a_group(t *testing.T) {
+	if got := normalizeNumber("1.5E3"); got != "1.5E3" {
+		fmt.Printf("WITNESS-FAILS normalizeNumber(\"1.5E3\") = %q (the point read as a group mark: 15000 instead of 1500)\n", got)
+		return
+	}
+	fmt.Println("WITNESS-HOLDS")
+}
